@@ -1432,3 +1432,4 @@ def replay(ctx, payload):
     if "calls" not in case:
         return
     report(ctx, [case], evaluate(ctx, [case]), do_shrink=False)
+THEOREMS += ['gen_boot_packet', 'header_be', 'bp_loop']   # translator tie: generated function bodies = model (Props/C20Gen.lean)
